@@ -15,7 +15,9 @@ from harness.lib import common
 
 PROP = 'C12'
 PROP_FILE = 'Props/C12.v'
-THEOREMS = ['C12_exclusive', 'C12_bound']
+THEOREMS = ['C12_exclusive', 'C12_bound', 'C12_no_lost_wakeup', 'C12_waiter_served_at_once',
+            'C12_quiescent_clean', 'C12_quiescent_clean_no_cancel', 'C12_deadlock_free',
+            'C12_no_exception_no_lock_held']
 TRUSTED = [
     'hand-written LTS Model/Pool.v of wpull/network/pool.py + BaseSession exit discipline, tied by the trace-inclusion run of this check',
     'asyncio Lock / Condition / Task.cancel / shield semantics are MODELLED from the CPython 3.12 source at their real suspension '
@@ -31,9 +33,22 @@ ASSUMPTIONS = [
     'the environment cancels a client task at most once; release tasks themselves are never cancelled from outside',
 ]
 
-LEVEL_TEXT = 'proof'
-LEVEL_NOTE = 'in progress'
-TECHNIQUE = 'Coq 8.16.1: invariants of the pool LTS by reachable-state induction + trace-inclusion correspondence'
+LEVEL_TEXT = ('proof: all six clauses are Coq theorems over the LTS Model/Pool.v for every number of clients / host keys, every '
+              'limit M and max_count, every interleaving incl. cancellation at every suspension point, connection errors, remote '
+              'closes and clean() calls (reachable-state induction with one invariant, Proofs/PoolInv.v + PoolStep.v): '
+              'exclusive holder + busy = held-or-owed (C12_exclusive), <= M per host (C12_bound), no lost wake-up and a notified '
+              'waiter is served in its next step (C12_no_lost_wakeup, C12_waiter_served_at_once), quiescent => nothing checked out '
+              'and clean() drops idle hosts, with and without cancellation (C12_quiescent_clean[_no_cancel]), no stuck state for '
+              'M >= 1 (C12_deadlock_free) and no lock held / nobody queued on a lock / no exception between steps '
+              '(C12_no_exception_no_lock_held). Nothing is _partial or _refuted on the current tree (three round-1 fix commits).')
+LEVEL_NOTE = ('The model is hand-written; the tie to wpull/network/pool.py + BaseSession is the trace-inclusion run of every check '
+              '(real classes on a scripted event loop, observation compared after every scheduling step). asyncio Lock/Condition/'
+              'cancel/shield semantics are modelled from CPython 3.12 (the real classes run in the correspondence). Deadlock freedom '
+              'is the safety statement "no reachable state is stuck" - liveness under a fair scheduler and "holders eventually leave" '
+              'is an assumption, not a theorem. "As soon as one is free" is proved as: every free slot is matched by a notified waiter '
+              'with a ready handle, and that waiter takes the connection in its next step unless a NEW client barges in first '
+              '(asyncio.Condition semantics, inherent in the design; the waiter is then re-queued, never lost).')
+TECHNIQUE = 'Coq 8.16.1: invariants of the pool LTS by reachable-state induction + trace-inclusion correspondence (vm_compute) against the real classes'
 
 HEADER = '''From Coq Require Import List Arith Bool ZArith.
 From Wpull Require Import Lib.Hex Model.Pool.
@@ -259,6 +274,12 @@ def _viol(cfg, res):
     return out
 
 
+def _cap(best, n=8):
+    """at most n violation classes, shortest schedules first (one replay per class)"""
+    vs = sorted(best.values(), key=lambda v: (len(v['case']['schedule']), classify(v)))
+    return vs[:n]
+
+
 def classify(v):
     why = v.get('why', '')
     case = v.get('case', {})
@@ -300,7 +321,7 @@ def correspondence(ctx):
     r = common.rng('c12')
     thorough = ctx.thorough
     # ---- stream 1: random schedules
-    pairs = random_configs(r, 260 if not thorough else 5000)
+    pairs = random_configs(r, 220 if not thorough else 2000)
     items = _impl_random(pairs, 70)
     # ---- stream 2: every schedule of small configurations (states identified by a fingerprint of the real objects)
     ecfgs = explore_configs(thorough)
@@ -314,8 +335,9 @@ def correspondence(ctx):
         for v in eo['violations']:
             viol.append({'why': v['why'], 'case': {'cfg': cfg, 'schedule': v['schedule'], 'epilogue': False}})
         leaves = eo['leaves']
-        if not thorough and len(leaves) > 500:
-            leaves = r.sample(leaves, 500)
+        cap = 400 if not thorough else 2500
+        if len(leaves) > cap:
+            leaves = r.sample(leaves, cap)
         jobs += [(cfg, p) for p in leaves if p]
     eitems = _impl_runs(jobs)
     all_items = items + eitems
@@ -361,7 +383,7 @@ def correspondence(ctx):
         'input_distribution': {'actions': kinds, 'runs_with_feature': feats, 'random_runs': len(items),
                                'explored_paths_replayed_in_model': len(eitems), 'exploration': explore_stats},
         'disagreements': dis[:50],
-        'impl_violations': list(best.values()),
+        'impl_violations': _cap(best),
     }
 
 
@@ -390,7 +412,7 @@ def search(ctx, disagreements):
         k = classify(v)
         if k not in best or len(v['case']['schedule']) < len(best[k]['case']['schedule']):
             best[k] = v
-    return list(best.values())
+    return _cap(best)
 
 
 def replay(ctx, data):
